@@ -10,6 +10,8 @@
 (*      "eth1_unverified" the same with verification switched off          *)
 (*      "kickstart"       phase0.KickStartState (unverified, eth1 time 0,  *)
 (*                        then genesis_time := time)                       *)
+(*      "kickstart_sigs"  phase0.KickStartStateWithSignatures (the same,   *)
+(*                        zrnt signs the deposits with the given keys)     *)
 (* Events are independent of each other.  Reports are printed with PrintT  *)
 (* (<<"MISMATCH", line, "Genesis">>, <<"DIFF", line, ...>>); zrnt refusing *)
 (* to build a state the specification defines is tolerated only for the    *)
@@ -38,16 +40,19 @@ DiffFields(exp, got) ==
 Expected(e) ==
     CASE e.fn = "eth1" -> InitializeBeaconStateFromEth1(e.g, TRUE)
       [] e.fn = "eth1_unverified" -> InitializeBeaconStateFromEth1(e.g, FALSE)
-      [] e.fn = "kickstart" ->
-            LET r == InitializeBeaconStateFromEth1(e.g, FALSE)
-            IN IF IsBad(r) THEN r ELSE [r EXCEPT !.genesis_time = e.time]
+      [] e.fn \in {"kickstart", "kickstart_sigs"} ->
+            \* kickstart_sigs signs every deposit with the secret key handed in and refuses a key that does not
+            \* belong to the deposit's pubkey (key_mismatch, also for undecodable pubkeys)
+            IF e.fn = "kickstart_sigs" /\ e.key_mismatch THEN Bad
+            ELSE LET r == InitializeBeaconStateFromEth1(e.g, FALSE)
+                 IN IF IsBad(r) THEN r ELSE [r EXCEPT !.genesis_time = e.time]
 
 Report(k, what) == PrintT(<<"MISMATCH", k, "Genesis">>) /\ PrintT(<<"DIFF", k, what>>)
 
 Check(e, k) ==
     LET exp == Expected(e)
     IN IF IsBad(exp)
-         THEN IF e.ok THEN Report(k, "zrnt built a genesis state from a deposit list the specification rejects (bad proof)")
+         THEN IF e.ok THEN Report(k, "zrnt built a genesis state from an input the specification rejects (bad proof / foreign key)")
               ELSE TRUE
        ELSE IF ~e.ok
          THEN IF NVal(exp) < SPE \/ ActiveIndices(exp, GENESIS_EPOCH) = {}
